@@ -9,6 +9,7 @@ import (
 	"os/exec"
 	"path/filepath"
 	"regexp"
+	"slices"
 	"sort"
 	"strings"
 	"testing"
@@ -1172,16 +1173,25 @@ func TestE2Files(t *testing.T) {
 // in the background, so the remote job manager, its job scripts (C18), its
 // --maxjobs limit (C12) and its journal handling (C11) are exercised with
 // real processes.
-func TestE2Cluster(t *testing.T) {
+func TestE2Cluster(t *testing.T) { e2Cluster(t, "C12") }
+
+// TestE2ClusterKeys: the same for C11 - what a job is told (its directories
+// and its journal name, all in the job script) is what mrp listens for,
+// whatever the keys of the map calls look like.
+func TestE2ClusterKeys(t *testing.T) { e2Cluster(t, "C11") }
+
+func e2Cluster(t *testing.T, prop string) {
 	root := workRoot(t)
-	propOverride = "C12"
+	propOverride = prop
 	defer func() { propOverride = "" }()
 	rapid.Check(t, func(t *rapid.T) {
-		prog := mrogen.GenProgram(t, e2Cfg())
+		cfg := e2Cfg()
+		cfg.KeyedMapBias = prop == "C11"
+		prog := mrogen.GenProgram(t, cfg)
 		for k := range excluded {
 			delete(excluded, k)
 		}
-		c, done := newE2(t, root, "e2clu", prog, "C12", 25)
+		c, done := newE2(t, root, "e2clu", prog, prop, 25)
 		if c == nil {
 			return
 		}
@@ -1208,7 +1218,7 @@ func TestE2Cluster(t *testing.T) {
 			t.Fatalf("INFRA: %v", err)
 		}
 		restarted := false
-		if rapid.IntRange(0, 2).Draw(t, "killAndRestart") > 0 {
+		if prop == "C12" && rapid.IntRange(0, 2).Draw(t, "killAndRestart") > 0 {
 			// mrp is killed while jobs are on the "cluster" (they go on: the
 			// submit command detached them) and others wait for a slot; the
 			// restarted mrp has to count the ones that are still out there
@@ -1225,14 +1235,14 @@ func TestE2Cluster(t *testing.T) {
 				}
 			}
 		}
-		rc := waitOrStall(p, 25*time.Second, 400*time.Second)
+		rc := waitOrStall(p, c.Plan.Ledger, 25*time.Second, 400*time.Second)
 		if rc == -1 && restarted {
 			if lost := lostSubmissions(c.PsDir()); len(lost) > 0 {
 				// mrp was killed after it had taken a job's
 				// _queued_locally marker away and before the submit
 				// command had the job: nothing will ever run or report it
 				if stats.Known("C05/cluster-job-lost-when-killed-while-submitting") {
-					stats.Count("C12", "excluded_known:cluster-job-lost-when-killed-while-submitting", 1)
+					stats.Count(prop, "excluded_known:cluster-job-lost-when-killed-while-submitting", 1)
 					return
 				}
 				fail(t, "C05", "cluster-job-lost-when-killed-while-submitting", "the restarted mrp waits for a job that was never submitted: %v\n%s\n%s", lost, stats.Trunc(p.Log(), 3000), c.describe())
@@ -1297,21 +1307,44 @@ func TestE2Cluster(t *testing.T) {
 		if maxRun > 1 {
 			cls = append(cls, "jobs-overlapped")
 		}
-		stats.Case("C12", maxRun > 1, stats.Digest(c.src, maxJobs), cls, func() any {
+		nontrivial := maxRun > 1
+		if prop == "C11" {
+			// forks named after keys that are not plain words
+			nontrivial = false
+			for _, r := range recs {
+				if i := strings.Index(r.Identity, "//fork_"); i >= 0 {
+					key := r.Identity[i+7 : strings.LastIndexByte(r.Identity, ':')]
+					if strings.Contains(key, "__MRO_") {
+						cls = append(cls, "cluster-key-is-template-parameter")
+					}
+					if strings.IndexFunc(key, func(c rune) bool { return !(c >= 'a' && c <= 'z' || c >= '0' && c <= '9') }) >= 0 {
+						nontrivial = true
+					}
+				}
+			}
+			if nontrivial {
+				cls = append(cls, "cluster-odd-key")
+			}
+			sort.Strings(cls)
+			cls = slices.Compact(cls)
+		}
+		stats.Case(prop, nontrivial, stats.Digest(c.src, maxJobs), cls, func() any {
 			return map[string]any{"program": stats.Trunc(c.src, 600), "maxjobs": maxJobs, "max_running": maxRun, "submitted": len(submitted)}
 		})
 	})
 }
 
 // waitOrStall is Proc.Wait that gives up early (-1, process group killed) when
-// mrp has not written a line for the quiet period: in cluster mode it reports
-// every state change of every fork, and polls every few seconds.
-func waitOrStall(p *mrprun.Proc, quiet, total time.Duration) int {
+// no stage process has started or ended for the quiet period.
+func waitOrStall(p *mrprun.Proc, ledger string, quiet, total time.Duration) int {
 	deadline := time.Now().Add(total)
-	last, lastChange := int64(-1), time.Now()
+	last, lastChange := -1, time.Now()
 	for p.Running() && time.Now().Before(deadline) {
-		if fi, err := os.Stat(p.LogPath); err == nil && fi.Size() != last {
-			last, lastChange = fi.Size(), time.Now()
+		// (every start and every end of a stage process renames a file
+		// into the ledger directory; mrp's log does not do as a sign of
+		// life: a fork whose state flips back and forth fills it for ever)
+		if fi, err := os.Stat(ledger); err == nil && int(fi.ModTime().UnixNano()) != last {
+			last, lastChange = int(fi.ModTime().UnixNano()), time.Now()
 		}
 		if time.Since(lastChange) > quiet {
 			break
@@ -1547,7 +1580,7 @@ func TestKnownClusterJobLost(t *testing.T) {
 	if pr, err = c.Start(args...); err != nil {
 		t.Fatalf("INFRA: %v", err)
 	}
-	rc := waitOrStall(pr, 15*time.Second, 120*time.Second)
+	rc := waitOrStall(pr, c.Plan.Ledger, 15*time.Second, 120*time.Second)
 	if lost := lostSubmissions(c.PsDir()); rc == -1 && len(lost) > 0 {
 		fmt.Printf("KNOWN-PRESENT C05/cluster-job-lost-when-killed-while-submitting: the restarted mrp waits for %v, which was never submitted: %s\n", lost, stats.Trunc(pr.Log(), 300))
 	}
